@@ -89,7 +89,6 @@ def run(prop, tier, replay):
     t0 = time.time()
     out = vlib.Outcome(prop)
     quick = tier == "quick"
-    workers_each = 4
     assumptions = [
         "file contents and offsets are scaled down (files of 6..12 bytes, block sizes 0/2/4, max_iop_size 3/5, "
         "read_chunk_size 4): the arithmetic of coalesce/split/un-coalesce depends only on the order relations "
